@@ -3605,7 +3605,13 @@ impl Scenario for Custom {
             }
             _ => {
                 let p_gen = *rng.pick(&[1u16, 2, 89, 198, 1000, 1782, 3563]);
-                let p_cfg = if rng.chance(1, 2) { p_gen } else { *rng.pick(&[1u16, 88, 198, 199, 3563, 1782]) };
+                // (a configured period of a whole orbit or more can never be met: every pair is reported)
+                let p_cfg = match rng.below(8) {
+                    0..=3 => p_gen,
+                    4 => *rng.pick(&[3564u16, 7128, 65535]),
+                    5 => 3564 + p_gen,
+                    _ => *rng.pick(&[1u16, 88, 198, 199, 3563, 1782]),
+                };
                 let mut cfg = GenCfg::swarm(&mut rng, true);
                 cfg.n_links = rng.range(1, 3) as usize;
                 cfg.triggers = (1, 1);
